@@ -24,6 +24,8 @@ pub enum Outcome {
     Valid,
     Silent,
     Malformed,
+    /// only the first datagram of a multi-datagram reply arrives (a single-datagram protocol stays silent)
+    Partial,
 }
 
 // ====================================================================== GS1
@@ -321,6 +323,11 @@ impl Server for Gs1Server {
             Outcome::Silent => {}
             Outcome::Malformed => cx.udp_send(from, b"\\queryid\\a.b.c\\final\\".to_vec()),
             Outcome::Valid => send_ordered(cx, from, &self.datagrams.clone(), &self.order, &self.dup),
+            Outcome::Partial => {
+                if self.datagrams.len() > 1 {
+                    cx.udp_send(from, self.datagrams[0].clone());
+                }
+            }
         }
     }
 
@@ -494,7 +501,7 @@ impl Server for Gs2Server {
         let n = self.attempts;
         self.attempts += 1;
         match self.outcomes.get(n).copied().unwrap_or(Outcome::Valid) {
-            Outcome::Silent => {}
+            Outcome::Silent | Outcome::Partial => {}
             Outcome::Malformed => {
                 match cx.draw(3) {
                     0 => cx.udp_send(from, vec![0x05, id[0], id[1]]),
@@ -844,7 +851,7 @@ impl Server for Gs3Server {
                 let n = self.handshakes;
                 self.handshakes += 1;
                 match self.hs_outcomes.get(n).copied().unwrap_or(Outcome::Valid) {
-                    Outcome::Silent => {}
+                    Outcome::Silent | Outcome::Partial => {}
                     Outcome::Malformed => {
                         // truncated, or complete but for another session, or of the wrong kind
                         let mut d = vec![9];
@@ -891,6 +898,13 @@ impl Server for Gs3Server {
                 let n = self.data_requests;
                 self.data_requests += 1;
                 match self.data_outcomes.get(n).copied().unwrap_or(Outcome::Valid) {
+                    Outcome::Partial => {
+                        // the first packet of several, then nothing
+                        let d = self.datagrams(session);
+                        if d.len() > 1 {
+                            cx.udp_send(from, d[0].clone());
+                        }
+                    }
                     Outcome::Silent => {}
                     Outcome::Malformed => {
                         match cx.draw(3) {
